@@ -371,6 +371,47 @@ func cmdReclaim(fs *flag.FlagSet, args []string) {
 			}
 			s.fsckPoint(fmt.Sprintf("history %d directed remove-during-truncate %d", h, k))
 		}
+		// directed: files of about the size one transaction can free (the estimate that decides between
+		// freeing at once and handing over to the background shrinker must cover everything a freed block dirties)
+		for k, nblk := range []uint64{240, 260, 300, 400, 480, 506, 507, 520} {
+			if s.dead || sz < 2100 {
+				break
+			}
+			s.opCreate("create", s.root(), "medium", 0, nil)
+			m := s.handleOf(s.root(), "medium")
+			if m == nil {
+				break
+			}
+			okw := true
+			for b := uint64(0); b < nblk && okw; b += 60 {
+				n := uint64(60)
+				if b+n > nblk {
+					n = nblk - b
+				}
+				s.opWrite(m, b*4096, uint32(n*4096), 0, s.mkData(int(n*4096)))
+				okw = s.lastStatus == nfstypes.NFS3_OK
+			}
+			what := "removed"
+			if k%2 == 0 {
+				s.opRemove("remove", s.root(), "medium")
+			} else {
+				what = "truncated to 0"
+				zero := uint64(0)
+				s.opSetattr(m, &zero, timeHow{}, timeHow{})
+			}
+			mid := s.freeCounts()
+			wantBlocks := base[0]
+			if mid[0] != wantBlocks && okw {
+				s.oracle("C05", "space-not-reclaimed", fmt.Sprintf("history %d (disk %d): a %d-block file %s: afterwards (background freeing finished) the allocators report %d free blocks; the empty file system had %d",
+					h, sz, nblk, what, mid[0], base[0]))
+			}
+			s.fsckPoint(fmt.Sprintf("history %d directed medium file %d %s", h, nblk, what))
+			s.deleteTree(s.root())
+			if after := s.freeCounts(); after != base {
+				s.oracle("C05", "space-not-reclaimed", fmt.Sprintf("history %d (disk %d): after a %d-block file was %s and everything removed the allocators report %d free blocks / %d free inodes; the empty file system had %d / %d",
+					h, sz, nblk, what, after[0], after[1], base[0], base[1]))
+			}
+		}
 		for rd := 0; rd < *rounds && !s.dead; rd++ {
 			s.opCreate("mkdir", s.root(), "top", 0, nil)
 			top := s.handleOf(s.root(), "top")
